@@ -123,7 +123,7 @@ func (r *Reader) ReadPacketData() (data []byte, ci gopacket.CaptureInfo, err err
 	if ci, err = r.readPacketHeader(); err != nil {
 		return
 	}
-	if ci.CaptureLength > int(r.snaplen) {
+	if ci.CaptureLength > r.captureLimit() {
 		err = fmt.Errorf("capture length exceeds snap length: %d > %d", ci.CaptureLength, r.snaplen)
 		return
 	}
@@ -136,6 +136,20 @@ func (r *Reader) ReadPacketData() (data []byte, ci gopacket.CaptureInfo, err err
 	return data, ci, err
 }
 
+// maxSnaplenForZero is what a snap length of 0 in the file header stands for:
+// libpcap's MAXIMUM_SNAPLEN.
+const maxSnaplenForZero = 262144
+
+// captureLimit returns the largest capture length the reader accepts. A snap
+// length of 0 means "no limit" (libpcap reads it as its maximum snap length);
+// taking it literally would reject every packet of such a file.
+func (r *Reader) captureLimit() int {
+	if r.snaplen == 0 {
+		return maxSnaplenForZero
+	}
+	return int(r.snaplen)
+}
+
 // ZeroCopyReadPacketData reads next packet from file. The data buffer is owned by the Reader,
 // and each call to ZeroCopyReadPacketData invalidates data returned by the previous one.
 //
@@ -145,7 +159,7 @@ func (r *Reader) ZeroCopyReadPacketData() (data []byte, ci gopacket.CaptureInfo,
 	if ci, err = r.readPacketHeader(); err != nil {
 		return
 	}
-	if ci.CaptureLength > int(r.snaplen) {
+	if ci.CaptureLength > r.captureLimit() {
 		err = fmt.Errorf("capture length exceeds snap length: %d > %d", ci.CaptureLength, r.snaplen)
 		return
 	}
